@@ -4,6 +4,8 @@ import ecache
 import ewrap
 import kinds
 import tables
+import estep
+import eunits
 
 LEVEL = "E-TABLE over tdd::terminal_bin"
 
@@ -33,4 +35,14 @@ def run(ctx):
                 "lookup; every shortcut taken must denote the operation.")
     n = eshort.run(ctx, F, kinds=("tdd",))
     ctx.floor("E-TABLE.shortcut", "shortcut situations interpreted", n, 20)
-    ctx.not_decided = "ternary Shannon recursion, eval"
+    ctx.explain("E-TABLE.step: the recursive (Shannon expansion) step is interpreted on structured abstract operands -- inner nodes "
+                "with opaque or nested children in every relative level configuration (and every complement-tag "
+                "combination for BCDDs); recursive calls are builtins with the meaning of the callee, reduce yields a node. "
+                "The returned edge must denote the operation for all values of atoms and decision variables, the new "
+                "node must respect the variable order, and a cache entry must be valid for its key.")
+    n = estep.run(ctx, F, kinds=("tdd",))
+    ctx.floor("E-TABLE.step", "situations of the recursive step (apply_bin, apply_ite_rec)", n, 50)
+    ctx.explain("E-UNITS: no variable number meets a level number in the TDD rules crate.")
+    nfn, _ = eunits.run(ctx, F, crates=("oxidd_rules_tdd",))
+    ctx.floor("E-UNITS", "function bodies analysed", nfn, 25)
+    ctx.not_decided = "eval, apply_not"
